@@ -424,6 +424,35 @@ def abort_class(mb):
     return None
 
 
+def to_external_form(mb):
+    """the same model with every constant stored OUTSIDE the flatbuffer (Buffer.offset/size pointing behind it, 16-byte aligned):
+    written here independently of the library's serializer — two passes, because the offsets depend on the flatbuffer's length"""
+    m = read(mb)
+    datas = {}
+    for i, b in enumerate(m.buffers):
+        if b.data is not None and len(b.data) > 0:
+            datas[i] = bytes(np.asarray(b.data, dtype=np.uint8).tobytes())
+            b.data = None
+            b.offset, b.size = 1, 1          # placeholders: non-default so that the fields are written
+    if not datas:
+        return mb
+    first = bytes(flatbuffer_utils.convert_object_to_bytearray(m))
+    pos = len(first)
+    pos += (-pos) % 16
+    for i in sorted(datas):
+        m.buffers[i].offset, m.buffers[i].size = pos, len(datas[i])
+        pos += len(datas[i])
+        pos += (-pos) % 16
+    out = bytearray(flatbuffer_utils.convert_object_to_bytearray(m))
+    if len(out) != len(first):
+        raise ValueError("flatbuffer length changed between the two passes")
+    for i in sorted(datas):
+        out += b"\0" * ((-len(out)) % 16)
+        assert len(out) == m.buffers[i].offset
+        out += datas[i]
+    return bytes(out)
+
+
 def interp_err_class(r, mb=None):
     """call-site class of an interpreter failure: kernel file + failed condition, digits masked"""
     if isinstance(r, tuple) and r[0] == "abort" and mb is not None:
